@@ -30,6 +30,7 @@ from common import Violation
 
 TITLE = "RandomGen: one candidate per valid sequence"
 LEVEL = "proof"
+DOMAINS = ['Random', 'Design']
 
 MAX_KEYS = 5000
 MAX_SPACE = 20000
@@ -45,6 +46,24 @@ def programs_for(ctx):
         i += 1
         if p is not None:
             progs.append(("gen:%d" % i, p))
+    # a stream inside the proved fragment (Frag.frag0): one crossing of plain factors, free factors,
+    # Repeat / MinimumTrials for several rounds and a leftover round, nothing that needs rejection
+    nfrag = 40 if ctx.quick else 300
+    j = 0
+    tries = 0
+    while j < nfrag and tries < 50 * nfrag:
+        tries += 1
+        p = gen_design.gen_program(ctx.rng, 3000, shape=ctx.rng.choice(["cross", "cross", "repeat"]),
+                                   features={"derived": False, "weighted_p": 0.0})
+        if p is None:
+            continue
+        keep = [c for c in p["constraints"] if c["kind"] == "MinimumTrials"]
+        ids = {c["id"] for c in keep}
+        p["constraints"] = keep
+        for b in p["blocks"]:
+            b["constraints"] = [c for c in b.get("constraints", []) if c in ids]
+        j += 1
+        progs.append(("frag:%d" % j, p))
     return progs
 
 
@@ -293,6 +312,19 @@ def run(ctx, res):
                           "UCSolutionEnumerator raises %s at %s on a design show_errors() accepts (%d valid sequences): no candidate is produced"
                           % (ex[1], ex[2], nvalid), None, i))
     res.extra["search"] = dict(stats)
+    thm = collections.Counter()
+    thm_bad = []
+    for (name, _), r in zip(progs, recs):
+        t = r.get("thm")
+        if t is None:
+            continue
+        thm[t[0]] += 1
+        if t[0] == "frag0" and not all(x is True for x in t[2:]):
+            thm_bad.append((name, r, t))
+    res.extra["proved_fragment"] = {
+        "frag0_designs": thm.get("frag0", 0), "frag0_too_many_keys": thm.get("big", 0), "outside_fragment": thm.get("outside", 0),
+        "note": "frag0 = Frag.frag0 (Properties/C04-C06 are proved for it); for the designs inside it the executable statements of "
+                "the theorems were also evaluated on the extracted model against Sem.all_valid"}
     res.extra["features_exercised"] = dict(feat)
     seen = set()
     for kind, what, key, i in found:
@@ -310,6 +342,11 @@ def run(ctx, res):
                 len(mism), name, r["mismatch"][:600]),
             {"layer": "L8", "theorems": ["C05_*"], "program": r["program"], "key": r.get("mismatch_key"),
              "mismatch": r["mismatch"][:1500]}, failing_input=False))
+    if thm_bad:
+        name, r, t = thm_bad[0]
+        res.violations.append(Violation(
+            "corr:theorem-statement", "executable statement of a C04-C06 theorem is false on the model for %s: %r" % (name, t),
+            {"layer": "L8-theorem-statements", "program": r["program"], "result": list(t)}, failing_input=False))
     res.notes.append("L8: %s" % json.dumps(hist, sort_keys=True))
     res.notes.append("search: %s" % json.dumps(dict(stats), sort_keys=True))
 
